@@ -30,6 +30,7 @@ type parseCase struct {
 	Source  string            `json:"source,omitempty"` // string (default), bytes, reader, scanner
 	Name    string            `json:"name,omitempty"`
 	Fault   *int              `json:"fault,omitempty"` // first failing rune (scanner) / byte (reader) index
+	EOFWrap bool              `json:"eofwrap,omitempty"` // the injected error also wraps io.EOF (it is still not io.EOF)
 }
 
 type commentObs struct {
@@ -207,6 +208,9 @@ func runParse1(c parseCase) (o parseObs) {
 		failAt = *c.Fault
 	}
 	ferr := fmt.Errorf("wrapped: %w", errInjected)
+	if c.EOFWrap {
+		ferr = fmt.Errorf("wrapped: %w (%w)", errInjected, io.EOF)
+	}
 	switch c.Source {
 	case "", "string":
 		src = c.Src
